@@ -19,10 +19,10 @@ FOLLOW = {"PPTT": {"op": "add_cache", "a": {}, "calls": [{"o": "size", "a": {"v"
           "MADT": {"op": "add_gicr", "a": {"base": [0, 0, 8, 0, 0, 0, 0, 0], "length": [0, 0, 2, 0]}, "calls": []}}
 
 
-def tprog(kind, ops, ctor=None, **kw):
-    # after the operation under test, the table is used further: a refused operation must leave it as it was
-    if kind in FOLLOW and len(ops) < 50:
-        ops = list(ops) + [FOLLOW[kind], FOLLOW[kind]]
+def tprog(kind, ops, ctor=None, follow=False, **kw):
+    # after a refused operation the table is used further: it must have been left as it was
+    if follow and kind in FOLLOW:
+        ops = list(ops) + [FOLLOW[kind]]
     p = {"fam": "table", "kind": kind, "ctor": dict(HDR, **(ctor or {})), "ops": ops}
     p.update(kw)
     return p
@@ -84,24 +84,24 @@ def table_sites(rng, th):
     cache = {"op": "add_cache", "a": {}, "calls": []}
     for k in [0, 1, 57, 58, 59, 60, 64, 100, 122, 300]:                          # PPTT node length is one byte
         progs.append(tprog("PPTT", [cache, {"op": "add_processor", "a": {"parent": 0, "id": [1, 0, 0, 0]},
-                                            "calls": [{"o": "add_cache", "a": {"ref": 1}}] * k}]))
+                                            "calls": [{"o": "add_cache", "a": {"ref": 1}}] * k}], follow=k > 58))
     for n in ([0, 254, 255, 256, 257, 300, 512, 8190, 8191, 8192] if th else [0, 255, 256, 257, 300]):                # CXIMS bitmap count is one byte
         progs.append(tprog("CEDT", [{"op": "add_xor_interleave_math", "a": {"gran": "Granularity4kb"},
-                                     "calls": [{"o": "add_xormap", "a": {"v": src.scalar(8)}} for _ in range(n)]}]))
+                                     "calls": [{"o": "add_xormap", "a": {"v": src.scalar(8)}} for _ in range(n)]}], follow=n > 255))
     msci = {"pxm": [1, 0, 0, 0], "size": [0] * 8, "total": "Two", "this": "One", "assoc": "Complex", "policy": "Writeback", "line": [64, 0]}
     for n in ([65534, 65535, 65536, 65537, 70000, 131072] if th else [65535, 65536, 65537]):                        # SMBIOS handle count is two bytes
         progs.append(tprog("HMAT", [{"op": "add_memory_side_cache", "a": msci,
-                                     "calls": [{"o": "add_smbios_handle", "a": {"v": [i % 256, (i // 256) % 256]}} for i in range(n)]}], full_limit=1 << 22))
+                                     "calls": [{"o": "add_smbios_handle", "a": {"v": [i % 256, (i // 256) % 256]}} for i in range(n)]}], full_limit=1 << 22, follow=n > 65535))
     wire = {"num": [1, 0, 0, 0], "level": True, "high": False, "aplic": [2, 0]}
     for n in ([8186, 8187, 8188, 8189, 9000, 16384] if th else [8187, 8188, 8200]):                              # RIMT device length is two bytes
-        progs.append(tprog("RIMT", [{"op": "add_iommu", "a": {"id": [1, 0], "wires": [wire] * n}, "calls": []}], full_limit=1 << 22))
+        progs.append(tprog("RIMT", [{"op": "add_iommu", "a": {"id": [1, 0], "wires": [wire] * n}, "calls": []}], full_limit=1 << 22, follow=n > 8187))
     io = {"op": "add_iommu", "a": {"id": [1, 0]}, "calls": []}
     mp = {"src": [1, 0, 0, 0], "dst": [2, 0, 0, 0], "n": [3, 0, 0, 0], "iommu": 1, "ats": True, "pri": False, "rciep": False}
     for n in ([3274, 3275, 3276, 3277, 4000, 6554] if th else [3275, 3276, 3300]):
-        progs.append(tprog("RIMT", [io, {"op": "add_pcie_root_complex", "a": {"id": [2, 0], "seg": [0, 0], "ats": False, "pri": False, "maps": [mp] * n}, "calls": []}], full_limit=1 << 22))
-        progs.append(tprog("RIMT", [io, {"op": "add_platform", "a": {"id": [2, 0], "name": [65] * 22, "maps": [mp] * n}, "calls": []}], full_limit=1 << 22))
+        progs.append(tprog("RIMT", [io, {"op": "add_pcie_root_complex", "a": {"id": [2, 0], "seg": [0, 0], "ats": False, "pri": False, "maps": [mp] * n}, "calls": []}], full_limit=1 << 22, follow=n > 3275))
+        progs.append(tprog("RIMT", [io, {"op": "add_platform", "a": {"id": [2, 0], "name": [65] * 22, "maps": [mp] * n}, "calls": []}], full_limit=1 << 22, follow=n > 3274))
     for n in ([65500, 65522, 65523, 65524, 65535, 70000] if th else [65522, 65523, 65600]):                         # platform name
-        progs.append(tprog("RIMT", [{"op": "add_platform", "a": {"id": [2, 0], "name": [65] * n}, "calls": []}], full_limit=1 << 22))
+        progs.append(tprog("RIMT", [{"op": "add_platform", "a": {"id": [2, 0], "name": [65] * n}, "calls": []}], full_limit=1 << 22, follow=n > 65522))
     reg = {"space": "SystemMemory", "width": [64], "offset": [0], "access": "QwordAccess", "addr": [0] * 8}
     res = {"rtype": "Cache", "flags": [0, 0], "id": {"t": "cache", "cache_id": [1, 0, 0, 0]}}
     for n in ([3274, 3275, 3276, 3277, 3300, 6600] if th else [3275, 3276, 3300]):                               # RQSC controller length is two bytes
@@ -112,27 +112,27 @@ def table_sites(rng, th):
         progs.append(tprog("RQSC", [{"op": "add_controller", "a": {"type": "Bandwidth", "reg": reg, "rcid": [1, 0, 0, 0], "mcid": [1, 0, 0, 0], "flags": [0, 0]},
                                      "calls": [{"o": "add_resource", "a": {"v": vres}}]}], ctor={"timebase": [0] * 8}, full_limit=1 << 22))
     for n in ([65523, 65524, 65525, 65526, 65527, 65535, 65536, 70000] if th else [65524, 65525, 65526, 65527, 65600]):           # RHCT node length is two bytes
-        progs.append(tprog("RHCT", [{"op": "add_isa_string", "a": {"str": [97] * n}, "calls": []}], ctor={"timebase": [0] * 8}, full_limit=1 << 22))
+        progs.append(tprog("RHCT", [{"op": "add_isa_string", "a": {"str": [97] * n}, "calls": []}], ctor={"timebase": [0] * 8}, full_limit=1 << 22, follow=n > 65525))
     isa = {"op": "add_isa_string", "a": {"str": [114, 118]}, "calls": []}
     cmo = {"op": "add_cmo", "a": {"cbom": [6], "cbop": [6], "cboz": [6]}, "calls": []}
     for n in ([16378, 16379, 16380, 16381, 20000] if th else [16379, 16380, 16400]):
         progs.append(tprog("RHCT", [isa, cmo, {"op": "add_hart_info", "a": {"uid": [1, 0, 0, 0], "isa": 1}, "calls": [{"o": "with_cmo", "a": {"ref": 2}}] * n}],
-                           ctor={"timebase": [0] * 8}, full_limit=1 << 22))
+                           ctor={"timebase": [0] * 8}, full_limit=1 << 22, follow=n > 16379))
     # VIOT: 16-bit node offsets: the node that would start at 65536 must be refused
     g = schema.TableGen(schema.Rand(rng), "VIOT")
     for i in range(4100):
         g.add("add_virtio_mmio_iommu")
     p = g.program()
-    p["observe_every"] = 1000
-    p["full_limit"] = 1 << 22
+    p["observe_every"] = 1
+    p["summary"] = True          # judged through generic observations (length before/after, byte sum, header bytes)
     progs.append(p)
     g = schema.TableGen(schema.Rand(rng), "VIOT")
     g.add("add_virtio_pci_iommu")
     for i in range(2800):
         g.add(rng.choice(["add_mmio_endpoint", "add_pci_range"]))
     p = g.program()
-    p["observe_every"] = 1000
-    p["full_limit"] = 1 << 22
+    p["observe_every"] = 1
+    p["summary"] = True
     progs.append(p)
     # SLIT: localities^2 must be representable
     for n in [0, 1, 255, 256, 65536, 131072]:
@@ -140,16 +140,16 @@ def table_sites(rng, th):
     # PCI device / function numbers (5 and 3 bits)
     for dev, fn in [(31, 7), (32, 0), (0, 8), (255, 255), (33, 9)]:
         pci = {"seg": [1, 0], "bus": [2], "dev": [dev], "fn": [fn]}
-        progs.append(tprog("SRAT", [{"op": "add_generic_initiator", "a": {"pxm": [1, 0, 0, 0], "handle": dict(pci, t="pci")}, "calls": []}]))
-        progs.append(tprog("RIMT", [{"op": "add_iommu", "a": {"id": [1, 0], "pci": pci}, "calls": []}]))
-        progs.append(tprog("VIOT", [{"op": "add_virtio_pci_iommu", "a": {"pci": pci}, "calls": []}]))
-        progs.append(tprog("CEDT", [{"op": "add_port_association", "a": {"seg": [1, 0], "bus": [2], "dev": [dev], "fn": [fn], "proto": "CxlMem", "base": [0] * 8}, "calls": []}]))
-        progs.append(tprog("HEST", [{"op": "add_aer_device", "a": {"ctor": "port", "ff": "Enabled", "pci": {"bus": [2], "dev": [dev], "fn": [fn]}}, "calls": []}]))
+        progs.append(tprog("SRAT", [{"op": "add_generic_initiator", "a": {"pxm": [1, 0, 0, 0], "handle": dict(pci, t="pci")}, "calls": []}], follow=True))
+        progs.append(tprog("RIMT", [{"op": "add_iommu", "a": {"id": [1, 0], "pci": pci}, "calls": []}], follow=True))
+        progs.append(tprog("VIOT", [{"op": "add_virtio_pci_iommu", "a": {"pci": pci}, "calls": []}], follow=True))
+        progs.append(tprog("CEDT", [{"op": "add_port_association", "a": {"seg": [1, 0], "bus": [2], "dev": [dev], "fn": [fn], "proto": "CxlMem", "base": [0] * 8}, "calls": []}], follow=True))
+        progs.append(tprog("HEST", [{"op": "add_aer_device", "a": {"ctor": "port", "ff": "Enabled", "pci": {"bus": [2], "dev": [dev], "fn": [fn]}}, "calls": []}], follow=True))
         progs.append(tprog("TCPA_SERVER", [{"op": "pci_sbdf", "a": {"seg": [1], "bus": [2], "dev": [dev], "fn": [fn]}}]))
     tp = {"class": "Client", "base": [0] * 8, "start": "Crb"}
     progs.append(tprog("TPM2", [{"op": "set_log_area", "a": {"min_len": [1, 0, 0, 0], "base": [2] * 8}}, {"op": "set_log_area", "a": {"min_len": [1, 0, 0, 0], "base": [2] * 8}}], ctor=tp))
     im = {"op": "add_imsic", "a": {"s_ids": [1, 0], "g_ids": [1, 0], "guest_bits": [1], "hart_bits": [1], "group_bits": [1], "group_shift": [1]}, "calls": []}
-    progs.append(tprog("MADT", [im, im], ctor={"lic": "Riscv"}))
+    progs.append(tprog("MADT", [im, im], ctor={"lic": "Riscv"}, follow=True))
     return progs
 
 
